@@ -1247,7 +1247,7 @@ impl ParserListener for Screen {
                                 }
                             }
                         } else if n == 2 {
-                            if let (Some(r), Some(g), Some(b)) =
+                            if let (Some(r @ 0..=255), Some(g @ 0..=255), Some(b @ 0..=255)) =
                                 (attrs_list.pop(), attrs_list.pop(), attrs_list.pop())
                             {
                                 replace.insert(
